@@ -293,6 +293,23 @@ def run(ctx):
         # parent link: the previous block's hash (block_number - 1)
     n_scan = T.clause_index_scan_bounds(R, F)
     R.floor("index_range_scans", n_scan, 3)
+    # the hash an inscription transaction is stored under is derived from (sender, *account nonce*, target, data): unique per
+    # sender over time.  Derived from anything that repeats (the index in the block, the block number) two transactions collide
+    # and the later one overwrites the rows of the earlier.
+    gth = [f for f in F.fns.values() if f.name.endswith("engine::utils::get_tx_hash")]
+    R.floor("get_tx_hash", len(gth), 1)
+    n_h = 0
+    for b in ER.operation_bodies(F, "add_tx_to_block"):
+        for c in b.calls():
+            if gth and c.target_id == gth[0].id and not b.is_cleanup(c.bb):
+                n_h += 1
+                pnh = gth[0].j.get("param_names") or []
+                ai = pnh.index("account_nonce") if "account_nonce" in pnh else 1
+                a = W2.resolve(F, b, origin(b, c.args[ai]))
+                R.ob(mentions(a, "get_account_nonce") and not mentions(a, "tx_idx") and not mentions(a, "block_number"), "WIRE", c.where(), "WIRE|add_tx_to_block|tx-hash-nonce",
+                     "the transaction hash is derived from `%s`, not from the sender's account nonce" % show(a)[:70],
+                     sample={"rule": "WIRE", "fn": "add_tx_to_block", "row": "get_tx_hash(tx_info, account nonce)"})
+    R.floor("tx_hash_sites", n_h, 1)
     # a drained transaction is indexed under its own inscription id (and runs with its own stored data)
     ER.clause_drain_own_data(R, F)
     return R
